@@ -12,11 +12,11 @@ import mpi_common
 def run(tier, seed):
     chk = vlib.Check("C11", tier, seed)
     flav = ("asan", "asan-ndebug")
-    n = 70 if tier == "quick" else 2000
+    n = 70 if tier == "quick" else 1000
     cases = sim_common.make_cases("C11", tier, seed, n, variants=(0, 0, 1, 2, 0, 3), fp_levels=(1, 10, 2, 3), sizes=(0, 1, 0), flavours=flav)
     sim_common.run_sim_cases(chk, cases, timeout=300, retries=0)
     chk.soft_fraction = 0.3
-    mcases = mpi_common.make_cases("C11", tier, seed, 12 if tier == "quick" else 300, variants=(0, 1, 2), fault_rates=(0, 40), flavours=flav)
+    mcases = mpi_common.make_cases("C11", tier, seed, 12 if tier == "quick" else 150, variants=(0, 1, 2), fault_rates=(0, 40), flavours=flav)
     mpi_common.run_mpi_cases(chk, mcases, timeout=30 if tier == "quick" else 90, retries=0)
     # the unit engines, reduced counts; any sanitizer report in repo code is a C11 violation
     V = vlib.VERIF
